@@ -48,6 +48,7 @@ import (
 func TestVerif(t *testing.T) {
 	simkit.Main(t, propC26())
 	simkit.Main(t, propC27())
+	simkit.Main(t, propC47p())
 }
 
 // ---------------------------------------------------------------------------------------
